@@ -262,3 +262,45 @@ func H12two_qos2() {
 	vrtReach("C12.two_completed")
 	svc.stop()
 }
+
+// H12two_batch: two QoS 1 publishes acknowledged in either order, so that one
+// acknowledgement may release both at once; the first request's callback may
+// return an error. Each completion still fires exactly once, never before its
+// own PUBACK, and at the latest when both have arrived.
+func H12two_batch() {
+	svc, c := vrtClientService()
+	failing := vrtChoice("failing_callback", 3) // 2: none
+	done := [2]int{}
+	ids := [2]uint16{}
+	for i := 0; i < 2; i++ {
+		i := i
+		m := message.NewPublishMessage()
+		m.SetTopic([]byte("t"))
+		m.SetPayload([]byte{byte('a' + i)})
+		m.SetQoS(1)
+		err := svc.publish(m, func(msg, ack message.Message, err error) error {
+			done[i]++
+			if failing == i {
+				return fmt.Errorf("completion %d failed", i)
+			}
+			return nil
+		})
+		vrtAssert("C12.call_ok", err == nil)
+		ids[i] = m.PacketID()
+	}
+	vrtQuiesce()
+	c.peerTake()
+	first := vrtChoice("acked_first", 2)
+	c.peerSend(specEncode(&specPkt{Typ: specPUBACK, ID: ids[first]}))
+	vrtQuiesce()
+	vrtAssert("C12.no_completion_before_its_ack", done[1-first] == 0)
+	if first == 0 {
+		vrtAssert("C12.completion_once_after_ack", done[0] == 1)
+	}
+	c.peerSend(specEncode(&specPkt{Typ: specPUBACK, ID: ids[1-first]}))
+	vrtQuiesce()
+	vrtAssert("C12.both_completed_once", done[0] == 1 && done[1] == 1)
+	vrtAssert("C12.connection_survives_callback_error", !c.isClosed())
+	vrtReach("C12.batch_completed")
+	svc.stop()
+}
